@@ -207,11 +207,11 @@ func (g *Graph) EdgesNotBoth(a, b Atom) []Edge {
 				if !ok || be.Op != token.LAND || f.Truth {
 					continue
 				}
-				okA, sA := a.Match(g, be.X)
-				okB, sB := b.Match(g, be.Y)
+				okA, sA := matchN(g, a, be.X)
+				okB, sB := matchN(g, b, be.Y)
 				if !(okA && okB) {
-					okA, sA = a.Match(g, be.Y)
-					okB, sB = b.Match(g, be.X)
+					okA, sA = matchN(g, a, be.Y)
+					okB, sB = matchN(g, b, be.X)
 				}
 				if okA && okB && sA && sB {
 					set[e] = true
@@ -246,11 +246,11 @@ func (g *Graph) EdgesEither(a, b Atom) []Edge {
 				if !ok || be.Op != token.LOR || !f.Truth {
 					continue
 				}
-				okA, sA := a.Match(g, be.X)
-				okB, sB := b.Match(g, be.Y)
+				okA, sA := matchN(g, a, be.X)
+				okB, sB := matchN(g, b, be.Y)
 				if !(okA && okB) {
-					okA, sA = a.Match(g, be.Y)
-					okB, sB = b.Match(g, be.X)
+					okA, sA = matchN(g, a, be.Y)
+					okB, sB = matchN(g, b, be.X)
 				}
 				if okA && okB && sA && sB {
 					set[e] = true
@@ -273,4 +273,23 @@ func (p *Prog) DomEdges(f *Func, target ast.Node, edges []Edge) bool {
 		return false
 	}
 	return g.Dominated(pt, edges)
+}
+
+// matchN matches an atom against an expression, looking through leading negations.
+func matchN(g *Graph, a Atom, e ast.Expr) (bool, bool) {
+	flip := false
+	e = unparen(e)
+	for {
+		u, ok := e.(*ast.UnaryExpr)
+		if !ok || u.Op != token.NOT {
+			break
+		}
+		flip = !flip
+		e = unparen(u.X)
+	}
+	ok, s := a.Match(g, e)
+	if flip {
+		s = !s
+	}
+	return ok, s
 }
